@@ -156,6 +156,28 @@ def Chain.all (p : Tok → Bool) : Chain → Bool
   | .elif a b n => a.all p && b.all p && n.all p
 end
 
+def Tok.paramIdx : Tok → Nat
+  | .param i => i
+  | _ => 0
+
+mutual
+/-- the largest `%p` index used -/
+def Prog.maxParam : Prog → Nat
+  | .nil => 0
+  | .tok t r => max t.paramIdx r.maxParam
+  | .cond c r => max c.maxParam r.maxParam
+def Chain.maxParam : Chain → Nat
+  | .fi a b => max a.maxParam b.maxParam
+  | .els a b c => max a.maxParam (max b.maxParam c.maxParam)
+  | .elif a b n => max a.maxParam (max b.maxParam n.maxParam)
+end
+
+/-- tokens the pinned code handles as terminfo(5) says (no `%A`/`%O`, no `#`/space flag without a colon) -/
+def Tok.pinnedOk : Tok → Bool
+  | .bin .logAnd | .bin .logOr => false
+  | .fmt f => f.colon || f.flags.isEmpty
+  | _ => true
+
 /-! ### structural evaluator, generic in the state and in the meaning of the simple tokens -/
 
 section eval
@@ -234,8 +256,7 @@ def sem (t : Tok) (s : St) : St :=
   | .pct => put s [37]
   | .param i => { s with stk := s.params.getD (i - 1) (.str []) :: s.stk }
   | .incr =>  -- "add 1 to first two parameters (for ANSI terminals)": numeric parameters only
-    let inc : Value → Value := fun x => match x with | .int n => .int (wrap64 (n + 1)) | y => y
-    { s with params := (s.params.modify 0 inc).modify 1 inc }
+    { s with params := (s.params.modify 0 TParm.incParam).modify 1 TParm.incParam }
   | .outD => let (a, k) := popInt s.stk; put { s with stk := k } (itoa a)
   | .outC => let (a, k) := popInt s.stk; put { s with stk := k } [(a % 256).toNat]
   | .outS => let (a, k) := popStr s.stk; put { s with stk := k } a
